@@ -25,6 +25,9 @@ OBS = ["nreqs", "numrecs", "abuf", "disk"]
 MC_DIMS = [("t", 0), ("y", 2), ("x", 3), ("z", 2)]
 MC_VARS = [("F", ["y", "x"], "int"), ("R", ["t", "z"], "int"), ("G", ["t", "z"], "short")]
 MAXREC = 3
+# the variable table of Nonblock_MC.NVarTab
+NB_DIMS = [("t", 0), ("y6", 6), ("x4", 4), ("z2", 2), ("w4", 4)]
+NB_VARS = [("F", ["y6", "x4"], "int"), ("R", ["t", "x4"], "int"), ("G", ["t", "z2"], "short"), ("H", ["w4"], "double")]
 
 
 def vartab(vars_, dims, maxrec=MAXREC):
